@@ -11,6 +11,7 @@ import (
 	"net"
 	"os"
 	"path/filepath"
+	"strings"
 	"sync"
 	"time"
 
@@ -94,8 +95,9 @@ func runC12(c *Ctx) {
 
 func c12Sequence(c *Ctx, s int, backend, dir string) {
 	pk := []int{1, 2, 3, 7, 32768}[c.Rng.Intn(5)]
-	opts := []sftp.ClientOption{sftp.MaxPacketUnchecked(pk), sftp.MaxConcurrentRequestsPerFile(1 + c.Rng.Intn(3)), sftp.UseConcurrentReads(c.Rng.Intn(2) == 0),
-		sftp.UseConcurrentWrites(c.Rng.Intn(2) == 0), sftp.UseFstat(c.Rng.Intn(2) == 0)}
+	optsConc, optsCR, optsCW, optsFS := 1+c.Rng.Intn(3), c.Rng.Intn(2) == 0, c.Rng.Intn(2) == 0, c.Rng.Intn(2) == 0
+	opts := []sftp.ClientOption{sftp.MaxPacketUnchecked(pk), sftp.MaxConcurrentRequestsPerFile(optsConc), sftp.UseConcurrentReads(optsCR),
+		sftp.UseConcurrentWrites(optsCW), sftp.UseFstat(optsFS)}
 	initial := patternBytes(0, c.Rng.Intn(3*pk+2)%40)
 	localName := filepath.Join(dir, fmt.Sprintf("local%d", s))
 	os.WriteFile(localName, initial, 0o644)
@@ -129,6 +131,8 @@ func c12Sequence(c *Ctx, s int, backend, dir string) {
 		return
 	}
 	steps := 8
+	var mops, mobs []string // the same sequence for the model of Xfer/FileOps.v, and what the remote File did at each step
+	mok := true
 	for i := 0; i < steps; i++ {
 		op := []string{"read", "write", "readat", "writeat", "seek", "writeto", "readfrom", "truncate", "stat"}[c.Rng.Intn(9)]
 		ln := c.Rng.Intn(2*pk+2) % 50
@@ -139,6 +143,7 @@ func c12Sequence(c *Ctx, s int, backend, dir string) {
 		case "read":
 			a, b := make([]byte, ln), make([]byte, ln)
 			n1, e1 := f.Read(a)
+			mops, mobs = append(mops, fmt.Sprintf("r:%d", ln)), append(mobs, c12Obs(int64(n1), e1, a[:n1]))
 			n2, e2 := io.ReadFull(lf, b)
 			if e2 == io.ErrUnexpectedEOF {
 				e2 = io.EOF
@@ -153,11 +158,13 @@ func c12Sequence(c *Ctx, s int, backend, dir string) {
 		case "write":
 			d := patternBytes(2000+i, ln)
 			n1, e1 := f.Write(d)
+			mops, mobs = append(mops, "w:"+hexs(d)), append(mobs, c12Obs(int64(n1), e1, nil))
 			n2, e2 := lf.Write(d)
 			rn, ln2, rerr, lerr = int64(n1), int64(n2), e1, e2
 		case "readat":
 			a, b := make([]byte, ln), make([]byte, ln)
 			n1, e1 := f.ReadAt(a, off)
+			mops, mobs = append(mops, fmt.Sprintf("ra:%d:%d", off, ln)), append(mobs, c12Obs(int64(n1), e1, a[:n1]))
 			n2, e2 := lf.ReadAt(b, off)
 			if ln == 0 {
 				e2 = nil
@@ -166,6 +173,7 @@ func c12Sequence(c *Ctx, s int, backend, dir string) {
 		case "writeat":
 			d := patternBytes(3000+i, ln)
 			n1, e1 := f.WriteAt(d, off)
+			mops, mobs = append(mops, fmt.Sprintf("wa:%d:%s", off, hexs(d))), append(mobs, c12Obs(int64(n1), e1, nil))
 			n2, e2 := lf.WriteAt(d, off)
 			rn, ln2, rerr, lerr = int64(n1), int64(n2), e1, e2
 		case "seek":
@@ -176,6 +184,7 @@ func c12Sequence(c *Ctx, s int, backend, dir string) {
 			if e1 != nil {
 				n1 = 0
 			}
+			mops, mobs = append(mops, fmt.Sprintf("sk:%d:%d", wh, d)), append(mobs, c12Obs(n1, e1, nil))
 			if e2 != nil {
 				n2 = 0
 			}
@@ -183,6 +192,7 @@ func c12Sequence(c *Ctx, s int, backend, dir string) {
 		case "writeto":
 			var a, b bytes.Buffer
 			n1, e1 := f.WriteTo(&a)
+			mops, mobs = append(mops, "wt"), append(mobs, c12Obs(n1, e1, a.Bytes()))
 			n2, e2 := io.Copy(&b, lf)
 			rn, ln2, rerr, lerr = n1, n2, e1, e2
 			if !bytes.Equal(a.Bytes(), b.Bytes()) {
@@ -191,10 +201,12 @@ func c12Sequence(c *Ctx, s int, backend, dir string) {
 		case "readfrom":
 			d := patternBytes(4000+i, ln)
 			n1, e1 := f.ReadFrom(bytes.NewReader(d))
+			mops, mobs = append(mops, "rf:"+hexs(d)), append(mobs, c12Obs(n1, e1, nil))
 			n2, e2 := lf.ReadFrom(bytes.NewReader(d))
 			rn, ln2, rerr, lerr = n1, n2, e1, e2
 		case "truncate":
 			e1 := f.Truncate(off)
+			mops, mobs = append(mops, fmt.Sprintf("tr:%d", off)), append(mobs, c12Obs(0, e1, nil))
 			e2 := lf.Truncate(off)
 			rerr, lerr = e1, e2
 		case "stat":
@@ -203,10 +215,18 @@ func c12Sequence(c *Ctx, s int, backend, dir string) {
 			if e1 == nil && e2 == nil {
 				rn, ln2 = fi1.Size(), fi2.Size()
 			}
+			if e1 == nil {
+				mops, mobs = append(mops, "st"), append(mobs, c12Obs(fi1.Size(), nil, nil))
+			} else {
+				mok = false
+			}
 			rerr, lerr = e1, e2
 		}
 		ro, _ := f.Seek(0, io.SeekCurrent)
 		lo, _ := lf.Seek(0, io.SeekCurrent)
+		if len(mobs) > 0 {
+			mobs[len(mobs)-1] = fmt.Sprintf(mobs[len(mobs)-1], ro)
+		}
 		n := c.Case("fileseq", kvi("seq", s), kvi("step", i), kvs("op", op), kvi("len", ln), kvx("off", uint64(off)), kvi("p", pk), kvs("be", backend))
 		if ro != 0 || rerr != nil {
 			c.NT(n)
@@ -224,6 +244,39 @@ func c12Sequence(c *Ctx, s int, backend, dir string) {
 		}
 	}
 	f.Close()
+	// the same sequence on the model: per step count, error?, offset afterwards, data; and the final content of the file
+	var final []byte
+	var ferr error
+	if g, e := cl.Open(remote); e == nil {
+		final, ferr = io.ReadAll(g)
+		g.Close()
+	} else {
+		ferr = e
+	}
+	if mok && ferr == nil {
+		cr, cw, ufs := optsCR, optsCW, optsFS
+		n := c.Case("fseqm", kvi("seq", s), kvi("p", pk), kvi("conc", optsConc), kvb("cr", cr), kvb("cw", cw), kvb("fstat", ufs), kvx("maxtx", 32768), kvs("be", backend),
+			"init="+hexs(initial), "ops="+strings.Join(append([]string{}, mops...), ","))
+		if len(mops) == 0 {
+			c.Obs(n, "res=-", "final="+hexs(final))
+		} else {
+			c.Obs(n, "res="+strings.Join(mobs, ","), "final="+hexs(final))
+		}
+		c.Oracle(n, true, "")
+		if len(mops) >= 3 {
+			c.NT(n)
+		}
+		c.Stat("fseqm_cases")
+	}
+}
+
+// c12Obs: count, error?, offset afterwards (filled in once known), data
+func c12Obs(n int64, err error, data []byte) string {
+	e := 0
+	if err != nil {
+		e = 1
+	}
+	return fmt.Sprintf("%d:%d:%%d:%s", n, e, hexs(data))
 }
 
 func c12CloseRace(c *Ctx, i int) {
